@@ -34,6 +34,12 @@ type Ctl struct {
 	Events    *os.File
 	LogPoints map[string]bool
 
+	// Hold: the goroutine making the HoldAt-th hit of HoldPoint is parked forever (a worker frozen mid-way while the rest of
+	// the process goes on); Held is closed when that happens.
+	HoldPoint string
+	HoldAt    int64
+	Held      chan struct{}
+
 	// OnAt is an optional extra observer (must be cheap and thread-safe).
 	OnAt func(point string, n int64)
 
@@ -92,6 +98,13 @@ func (c *Ctl) at(point string) {
 			code = 77
 		}
 		os.Exit(code)
+	}
+	if c.HoldPoint == point && n == c.HoldAt {
+		c.logEvent("hold %s %d", point, n)
+		if c.Held != nil {
+			close(c.Held)
+		}
+		select {}
 	}
 	if c.Delay != nil && (c.Delay["*"] || c.Delay[point]) {
 		z := mix(c.Seed ^ strHash(point) ^ uint64(n)*0x9e3779b97f4a7c15)
